@@ -71,7 +71,10 @@ def run_case(cfg_shard, case, out):
         ctxt.setConnectionTimeout(cfg["server_connection_timeout"])
         ctxt.setMessageTimeout(cfg["server_message_timeout"])
         ctxt.setTempConnectionTimeout(cfg["server_temp_timeout"])
-    w = L.World(r, dt=cfg["dt"], jitter=cfg["jitter"], ctxt_setup=setup)
+    # "settings made on the ServerContext before the server starts": in half of the worlds the server object already exists
+    late_setup = (case + cfg_shard["shard"] + cfg_shard["seed"]) % 2 == 1
+    w = L.World(r, dt=cfg["dt"], jitter=cfg["jitter"], ctxt_setup=setup, ctxt_setup_after_construction=late_setup)
+    c.inc("worlds_configured_after_server_construction" if late_setup else "worlds_configured_before_server_construction")
     tick_max = cfg["dt"] * (1 + cfg["jitter"])
     events = []                    # (t, what)
     w.handler.on["disconnect"] = [lambda client: events.append((w.clock.now, "server-disconnect", client.addr, client.last_recv_time))]
@@ -300,8 +303,28 @@ def run_case(cfg_shard, case, out):
         if getattr(a.udp.conn.status, "value", 0) != 2 or a.addr not in w.ctxt.connections:
             c.inc("k3_skipped_connection_gone_after_probe")
             return
+        # in half of the worlds somebody re-delivers datagrams of this session verbatim (both directions) while the link is cut:
+        # copies of what was already received are not a sign of life
+        replay = (case + cfg_shard["seed"]) % 2 == 0
+        rec_c2s, rec_s2c = [], []
+        if replay:
+            grab = lambda direction, addr, d, client, n: (rec_c2s if direction == "c2s" else rec_s2c).append(d) if addr == a.addr else None
+            w.wire_hooks.append(grab)
+            w.step(16)
+            w.wire_hooks.remove(grab)
         w.net.set(c2s=L.Policy(outage=True), s2c=L.Policy(outage=True))
         w.net.heap[:] = []                      # nothing in flight survives the cut
+        w.step(2)
+        if replay and rec_c2s and rec_s2c:
+            c.inc("k3_worlds_with_replays_during_the_cut")
+
+            def replayer(ww):
+                if ww.ticks % max(1, int(0.2 / cfg["dt"])) == 0:
+                    # (not the newest ones: what was in flight when the link was cut never arrived - its copy would be a first arrival)
+                    ww.offer_server(a.addr, r.choice(rec_c2s[-10:-3] or rec_c2s[:1]), "replay:recent")
+                    if a.sock_open:
+                        a.sock.fifo.append((r.choice(rec_s2c[-10:-3] or rec_s2c[:1]), "replay:recent"))
+            w.tick_hooks.append(replayer)
         tr_server = sc.last_recv_time
         tr_client = a.udp.conn.last_recv_time
         n_events1 = len(events)
@@ -313,6 +336,8 @@ def run_case(cfg_shard, case, out):
             if t_drop is None and getattr(a.udp.conn.status, "value", 0) == 5:
                 t_drop = w.clock.now
         c.inc("k3_link_cuts")
+        w.tick_hooks[:] = [h for h in w.tick_hooks if getattr(h, "__name__", "") != "replayer"]
+        del a.sock.fifo[:]
         sev = [e for e in events[n_events1:] if e[1] == "server-disconnect" and e[2] == a.addr]
         timeout = cfg["server_connection_timeout"]
         if len(sev) != 1:
@@ -412,7 +437,7 @@ def finish(tier, seed, results):
                          "setter_connect_timeout_after", "setter_message_timeout_before", "setter_message_timeout_after", "k5_keep_alive_lowered_mid_idle",
                          "k5_keep_alive_lowered_in_window", "k1_one_directional_streams", "k1_quiet_side_within_bound",
                          "same_ip_second_client_connected", "k4_reconnect_after_dropped_in_window", "k4_reconnect_after_heal_connected",
-                         "k5_settings_in_force_in_second_session"], inconclusive)
+                         "k5_settings_in_force_in_second_session", "worlds_configured_after_server_construction", "k3_worlds_with_replays_during_the_cut"], inconclusive)
     cov = {
         "evaluations": m["evaluations"],
         "distinct_nontrivial": m["distinct_nontrivial"],
